@@ -124,7 +124,7 @@ def run_impl(steps):
         via = st.get("via", "method")
         r = "ok"
         try:
-            with common.quiet():
+            with common.quiet(), common.time_limit(20):
                 if do == "root":
                     w.reg(emdfile.Root(name=st["name"]))
                 elif do == "node":
